@@ -241,6 +241,22 @@ twin('C03', 'pyiga/_hdiscr.py', 'pyiga._hdiscr.HDiscretization._assemble_level',
 brk('C11', 'R11.10', 'pyiga/solvers.py', 'pyiga.solvers.local_mg_step', r"x1\[lv_ind\] \+= Bs\[0\]\.dot\(\(f - As\[0\]\.dot\(x1\)\)\[lv_ind\]\)", 'x1[lv_ind] = Bs[0].dot(f[lv_ind])', 'coarsest level overwrites instead of correcting')
 twin('C11', 'pyiga/solvers.py', 'pyiga.solvers.local_mg_step', r"x1\[lv_ind\] \+= Bs\[0\]\.dot\(\(f - As\[0\]\.dot\(x1\)\)\[lv_ind\]\)", 'r0 = f - As[0].dot(x1)\n            x1[lv_ind] += Bs[0].dot(r0[lv_ind])', 'residual through a local')
 brk('C15', 'R15.11', 'pyiga/mlmatrix.py', 'pyiga.mlmatrix.compute_sparsity_ij', r"meshsupp1 = np\.stack\(\(kv1\.kv\[:kv1\.numdofs\], kv1\.kv\[kv1\.p\+1:\]\), axis=1\)\n(\s*)meshsupp2 = np\.stack\(\(kv2\.kv\[:kv2\.numdofs\], kv2\.kv\[kv2\.p\+1:\]\), axis=1\)", r"meshsupp1 = kv1.mesh_support_idx_all()\n\1meshsupp2 = kv2.mesh_support_idx_all()", 'supports as indices into two different meshes again')
+# ---- wave 8: breaks are the stored seeds S221..S260 (whole-patch recipes below); twins = behaviour-preserving spellings of the same sites
+twin('C09', 'pyiga/assemble.py', 'pyiga.assemble.stiffness_fast', r"return stiffness\(kvs\)", 'K = stiffness(kvs)\n        return K', 'fallback through a temporary')
+twin('C09', 'pyiga/assemble.py', 'pyiga.assemble.integrate', r"extra_dims = fvals\.ndim - geo_det\.ndim\n(\s*)if extra_dims > 0:\n\s*geo_det\.shape = geo_det\.shape \+ \(extra_dims \* \(1,\)\)",
+     r'geo_det = geo_det.reshape(geo_det.shape + (fvals.ndim - geo_det.ndim) * (1,))', 'padding by reshape')
+twin('C12', 'pyiga/solvers.py', 'pyiga.solvers._adaptive_step_method.<locals>._method', r"fac = min\(5\.0, max\(0\.2, fac\)\)", 'fac = np.clip(fac, 0.2, 5.0)', 'clamp by np.clip on every path')
+twin('C12', 'pyiga/solvers.py', 'pyiga.solvers.newton', r"target = max\(atol, rtol \* np\.linalg\.norm\(res\)\)", 'target = max(rtol * np.linalg.norm(res), atol)', 'arguments of max commuted')
+twin('C15', 'pyiga/mlmatrix.py', 'pyiga.mlmatrix.MLStructure.nonzeros_for_columns', r"J, I = self\.transpose\(\)\.nonzeros_for_rows\(col_indices\)", 'St = self.transpose()\n        J, I = St.nonzeros_for_rows(col_indices)', 'transposed structure through a temporary')
+twin('C19', 'pyiga/bspline.py', 'pyiga.bspline.KnotVector.refine', r"kvnew = np\.sort\(np\.concatenate\(\(self\.kv, new_knots\)\)\)", 'kvnew = np.concatenate((self.kv, new_knots))\n        kvnew.sort()', 'in-place sort of the fresh concatenation')
+twin('C20', 'pyiga/compile.py', 'pyiga.compile._compile_cython_module_nocache', r"build_extension\.run\(\)", 'build_extension.run()  # single attempt', 'comment only')
+twin('C07', 'pyiga/geometry.py', 'pyiga.geometry.UserFunction.pointwise_eval', r"return self\.eval\(\*points\)", 'coords = tuple(points)\n        return self.eval(*coords)', 'coordinates through a tuple, order kept')
+twin('C04', 'pyiga/hierarchical.py', 'pyiga.hierarchical.HSpace._mark_recursive', r"marked\[l-self\.disparity\] = marked\.get\(l-self\.disparity, set\(\)\) \| neighbors",
+     'lk = l - self.disparity\n            marked[lk] = marked.get(lk, set()) | neighbors', 'level index through a temporary')
+twin('C10', 'pyiga/assemble.py', 'pyiga.assemble.RestrictedLinearSystem.__init__', r"self\.b = self\.restrict_rhs\(b - A\.dot\(self\.R_elim\.T\.dot\(values\)\)\)",
+     'lifted = b - A.dot(self.R_elim.T.dot(values))\n        self.b = self.restrict_rhs(lifted)', 'lifting through a fresh temporary (no write to b)')
+twin('C14', 'pyiga/assemble.py', 'pyiga.assemble._check_geo_match', r"def _check_geo_match\(G1, G2, grid=4\):", 'def _check_geo_match(G1, G2, grid=2*2):', 'default spelled as a product (same value)')
+
 # ---- rules added after the first wave of independently seeded changes (seeded/S01..S08): variants of those changes, and
 #      behaviour-preserving rewrites of the same constructs
 brk('C03', 'R03.7', 'pyiga/_hdiscr.py', 'pyiga._hdiscr.HDiscretization.assemble_matrix', r"(\n(\s*)for lv in range\(k\):)", r"\1\n\2    if not neighbors[k][lv]:\n\2        continue", 'coarser level skipped inside the accumulation loop')
